@@ -14,8 +14,8 @@
 //!     an uninterpreted bit of X (bit 1 of the same uf output). `to_encoded_point(true)` = c, `(false)` = 04 ‖ X ‖ Y(c);
 //!     `compress()` as in sec1.
 //! CBMC note: every decoding / key-construction path performs the same number of uf calls whatever the (symbolic) bytes are
-//!   (the public point of a scalar is derived before the range check is evaluated; the encoding length, which harnesses keep
-//!   concrete, is dispatched on before the tag), so the memo table's entry count stays concrete (units/README.md rule 3b).
+//!   (the public point of a scalar is derived before the range check is evaluated; decoding a point always evaluates
+//!   valid(X) and Y(c), whatever tag and length are), so the memo table's entry count stays concrete (units/README.md rule 3b).
 //! Model-only API (for harnesses): `model::in_range`, `NonZeroScalar::model_new_unchecked`.
 //! Scalars. `SecretKey::from_bytes/from_slice`, `SigningKey::from_bytes/from_slice`: EXACT range check 0 < d < n against
 //!   the constant group order (no uninterpreted validity bit); `from_slice` also accepts 24..47 bytes (left-padded) like the
@@ -217,40 +217,44 @@ impl AffinePoint {
     }
 }
 impl FromEncodedPoint for AffinePoint {
+    /// Every path performs the same two uf calls (validity of X, Y of the candidate point) in the same order, whatever the
+    /// tag and length are — an `EncodedPoint` that went through a symbolic Ok/Err merge has a symbolic `len` for CBMC.
     fn from_encoded_point(p: &EncodedPoint) -> Option<Self> {
         let b = &p.bytes;
-        if p.len == 1 {
-            return Some(AffinePoint::IDENTITY);
-        }
+        let tag = b[0]; // consistent with p.len by construction: 00 <-> 1, 02/03/05 <-> 49, 04 <-> 97
         let mut c = [0u8; 49];
         let mut i = 0;
         while i < 49 {
             c[i] = b[i];
             i += 1;
         }
-        if p.len == 49 {
-            // 02/03 ‖ X, or 05 ‖ X (compact: the root with the numerically smaller Y — an uninterpreted bit of X)
-            let (valid, sel) = x_valid(&c[1..]);
-            if b[0] == 5 {
-                c[0] = 2 | sel;
-            }
-            if valid {
+        if tag == 4 {
+            c[0] = 2 | (b[96] & 1);
+        }
+        let (valid, sel) = x_valid(&c[1..]);
+        if tag == 5 {
+            // compact: the root with the numerically smaller Y — an uninterpreted bit of X
+            c[0] = 2 | sel;
+        }
+        let y = y_of(&c);
+        let mut same = true;
+        let mut i = 0;
+        while i < 48 {
+            same &= y[i] == b[49 + i];
+            i += 1;
+        }
+        if tag == 0 {
+            Some(AffinePoint::IDENTITY)
+        } else if tag == 4 {
+            // 04 ‖ X ‖ Y
+            if valid && same {
                 Some(AffinePoint { c, infinity: false })
             } else {
                 None
             }
         } else {
-            // 04 ‖ X ‖ Y
-            c[0] = 2 | (b[96] & 1);
-            let (valid, _) = x_valid(&c[1..]);
-            let y = y_of(&c);
-            let mut same = true;
-            let mut i = 0;
-            while i < 48 {
-                same &= y[i] == b[49 + i];
-                i += 1;
-            }
-            if valid && same {
+            // 02/03 ‖ X, or 05 ‖ X
+            if valid {
                 Some(AffinePoint { c, infinity: false })
             } else {
                 None
@@ -261,6 +265,18 @@ impl FromEncodedPoint for AffinePoint {
 impl ToEncodedPoint for AffinePoint {
     fn to_encoded_point(&self, compress: bool) -> EncodedPoint {
         let mut bytes = [0u8; 97];
+        if compress {
+            if self.infinity {
+                return EncodedPoint { bytes, len: 1 };
+            }
+            let mut i = 0;
+            while i < 49 {
+                bytes[i] = self.c[i];
+                i += 1;
+            }
+            return EncodedPoint { bytes, len: 49 };
+        }
+        let y = y_of(&self.c); // before the identity test: the uf-call count must not depend on symbolic data
         if self.infinity {
             return EncodedPoint { bytes, len: 1 };
         }
@@ -269,8 +285,7 @@ impl ToEncodedPoint for AffinePoint {
             bytes[i] = self.c[i];
             i += 1;
         }
-        if !compress {
-            let y = y_of(&self.c);
+        {
             bytes[0] = 4;
             let mut i = 0;
             while i < 48 {
@@ -278,8 +293,6 @@ impl ToEncodedPoint for AffinePoint {
                 i += 1;
             }
             EncodedPoint { bytes, len: 97 }
-        } else {
-            EncodedPoint { bytes, len: 49 }
         }
     }
 }
@@ -309,9 +322,28 @@ impl PublicKey {
             Ok(PublicKey { point })
         }
     }
+    /// = `EncodedPoint::from_bytes(bytes)` then `from_encoded_point`, evaluated so that the number of uf calls depends only
+    /// on the (concrete) length, not on the (symbolic) tag: the point is examined first, the tag is judged afterwards.
     pub fn from_sec1_bytes(bytes: &[u8]) -> Result<Self, elliptic_curve::Error> {
-        let p = EncodedPoint::from_bytes(bytes).map_err(|_| elliptic_curve::Error)?;
-        Self::from_encoded_point(&p).ok_or(elliptic_curve::Error)
+        let n = bytes.len();
+        if n != 49 && n != 97 {
+            // 1 byte: only the identity (00) is a well-formed encoding and it is not a public key; other lengths are malformed
+            return Err(elliptic_curve::Error);
+        }
+        let mut raw = [0u8; 97];
+        let mut i = 0;
+        while i < 97 {
+            if i < n {
+                raw[i] = bytes[i];
+            }
+            i += 1;
+        }
+        let point = AffinePoint::from_encoded_point(&EncodedPoint { bytes: raw, len: n });
+        let well_formed = EncodedPoint::from_bytes(bytes).is_ok();
+        match point {
+            Some(point) if well_formed => Ok(PublicKey { point }),
+            _ => Err(elliptic_curve::Error),
+        }
     }
     pub fn as_affine(&self) -> &AffinePoint {
         &self.point
